@@ -62,6 +62,9 @@ REGLIKE = ["T0", "T1", "S1", "S0", "A7", "A0", "X5", "X10", "X31", "RA", "SP", "
            "T6", "A1", "x32", "t7", "a8", "s12"]
 
 
+MNEMONIC_LIKE = sorted(ALL_MNEMONICS)
+
+
 def fresh_labels(rng, names):
     pool = ["alpha", "Beta_1", "_g", "L99", "zz_top", "node", "entry2", "q", "w_", "Kx", "mAiN", "lab"]
     m = {}
@@ -73,7 +76,13 @@ def fresh_labels(rng, names):
                 # names that differ from a register / mnemonic spelling only by case are ordinary
                 # labels (register and mnemonic names are lower case)
                 c = rng.choice(REGLIKE)
-            if c not in used and c not in NUM and c.lower() not in ALL_MNEMONICS:
+            elif rng.random() < 0.2:
+                # a label may be spelled like a mnemonic (`div:`, `jal ret`): the statement position
+                # decides what a word is (RARS accepts these too)
+                c = rng.choice(MNEMONIC_LIKE)
+                if rng.random() < 0.3:
+                    c = c.capitalize() if rng.random() < 0.5 else c.upper()
+            if c not in used and c not in NUM:
                 used.add(c)
                 m[n] = c
                 break
